@@ -174,6 +174,12 @@ def make_config(seed, tier="quick"):
     host = r.choice(["pair", "pair", "pair", "pair", "senders", "outbound", "resend", "gate"])
     cfg = HOSTS[host][1](seed, tier)
     cfg["host"] = host
+    if host == "gate":
+        # the peer's TestReqID is echoed in a Heartbeat of the endpoint: a value outside ASCII has to come back in a
+        # well-formed frame too (BodyLength / CheckSum over the bytes actually written)
+        cfg["u8_testreq"] = r.random() < 0.5
+        if cfg["u8_testreq"] and "1" not in cfg["frame_types"]:
+            cfg["frame_types"] = list(cfg["frame_types"]) + ["1"]
     if host == "pair":
         cfg["charset"] = r.choice(["ascii", "latin1", "bmp", "astral", "latin1", "bmp", "surrogate", "nfd"])  # values containing SOH are outside the quantified domain (C01: "without SOH")
         cfg["payload_law"] = r.choice(["small", "small", "medium", "big", "huge"])
